@@ -70,7 +70,9 @@ def asserts(sc):
                              for g in oracle.groups(db)])
         out.append((f'job {f.j}: committed Ready => its group is in state running', A.imp(ready, grp_running)))
         out.append((f'job {f.j}: Ready and runnable => scheduler gate open and candidate query selects it',
-                    A.imp(b_and(ready, b_not(f.cancelled)), b_and(sums['n_ready_jobs'] > 0, sc.scheduler_selects(f.j)))))
+                    # (a job of the job-private collection that still has an attempt on a live instance is waiting for that
+                    # instance: the `HAVING live_attempts = 0` of its candidate query is not part of this gate)
+                    A.imp(b_and(ready, b_not(f.cancelled)), b_and(sums['n_ready_jobs'] > 0, sc.scheduler_selects(f.j, having=False)))))
         out.append((f'job {f.j}: Ready and cancelled => canceller gate open and candidate query selects it',
                     A.imp(b_and(ready, f.cancelled), b_and(sums['n_cancelled_ready_jobs'] > 0, sc.canceller_selects(f.j)))))
         out.append((f'job {f.j}: Creating and cancelled => canceller gate open',
